@@ -96,6 +96,12 @@ func (c *Ctx) e4Service() bool {
 		a    *absint.Analyzer // the analyzer that produced s: base ids are only meaningful within it
 	}
 	var observations []obs
+	type freshOb struct {
+		key, pos string
+		ok       bool
+		d        string
+	}
+	var freshObs []freshOb
 	// The reader hands parse() a window of the buffer it passes to Read on every iteration:
 	// checked structurally here, then parse() is analysed with that parameter marked as reused.
 	parse := c.P.Method("service", "packageParse", "parse")
@@ -183,6 +189,20 @@ func (c *Ctx) e4Service() bool {
 			}
 			jt := args[0]
 			pt := newMsg.Params[0].Type()
+			// a frame taken from the stream is decoded into a message object (and header) allocated for that frame:
+			// an object kept across frames is rewritten by the next Decode while handlers and the writer still hold it
+			if site.Parent() == unpack {
+				okF, dF := false, "the decoded message handed to newTerminalMessage is not a pointer the analysis can identify"
+				if jp, isP := jt.(*absint.Ptr); isP && jp.Obj != nil {
+					okF, dF = jp.Obj.Fresh, ""
+					if !okF {
+						dF = fmt.Sprintf("the message object (%s) is not allocated for this frame: it outlives the call (a field or a pooled object), so decoding the next frame rewrites the ID, phone, serial, package numbers and body slice of a message that was already delivered", jp.Obj.Desc)
+					} else if hp, isHP := findField(a, st, jt, pt, []string{"Header"}).(*absint.Ptr); isHP && hp.Obj != nil && !hp.Obj.Fresh {
+						okF, dF = false, fmt.Sprintf("the header object (%s) of the decoded message is not allocated for this frame", hp.Obj.Desc)
+					}
+				}
+				freshObs = append(freshObs, freshOb{caller, pos, okF, dF})
+			}
 			if b, ok := findField(a, st, jt, pt, []string{"Body"}).(*absint.Slice); ok {
 				observations = append(observations, obs{"Body", b, pos, caller, a})
 			}
@@ -210,6 +230,28 @@ func (c *Ctx) e4Service() bool {
 				agg[key] = fmt.Sprintf("%s of the message created at %s shares its backing array with %s: %s", o.what, o.pos, b.Desc, why)
 			}
 		}
+	}
+	{
+		R.Rules["E4.fresh-message"] = "every frame taken from the stream is decoded into a JTMessage and Header allocated for that frame (not an object kept in the parser, the connection or a pool): a delivered message's ID, phone, serial and package numbers are not rewritten by the decoding of later frames"
+		agg := map[string]freshOb{}
+		for _, f := range freshObs {
+			if cur, seen := agg[f.key]; !seen || (cur.ok && !f.ok) {
+				agg[f.key] = f
+			}
+		}
+		var ks []string
+		for k := range agg {
+			ks = append(ks, k)
+		}
+		sort.Strings(ks)
+		for _, k := range ks {
+			st := report.Discharged
+			if !agg[k].ok {
+				st = report.Violated
+			}
+			R.Add("E4.fresh-message", k, agg[k].pos, st, agg[k].d)
+		}
+		R.Require("E4.fresh-message", 2, "")
 	}
 	keys := make([]string, 0, len(okKeys))
 	for k := range okKeys {
